@@ -507,7 +507,7 @@ def _model(seq, w):
     return clauses, uls, pricer, cost
 
 
-def _exhaustive_unit(prog, q, depth, first=None):
+def _exhaustive_unit(prog, q, depth, only=None):
     """all histories of at most `depth` operations on class q (restricted to those that start with `first`): (count, failures, visited)"""
     import itertools
     interp = Interp(prog, max_depth=20)
@@ -518,7 +518,9 @@ def _exhaustive_unit(prog, q, depth, first=None):
     stock = "pfhedge.instruments.primary.brownian.BrownianStock"
     if stock not in prog.classes:
         raise AnalysisError("anchor vanished: BrownianStock")
-    seqs = [s_ for n in range(1, depth + 1) for s_ in itertools.product(ALPHABET, repeat=n) if first is None or s_[0] == first]
+    seqs = [s_ for n in range(1, depth + 1) for s_ in itertools.product(ALPHABET, repeat=n)]
+    if only is not None:
+        seqs = seqs[only[0]::only[1]]
     short = q.rsplit(".", 1)[-1]
     # the underliers are real instruments holding one simulated series each (x1, x2, x3)
     w = dict(u1="u1", u2="u2", u3="u3", c1=Sym("c1", ("callable",)), c2=Sym("c2", ("callable",)), p1=Sym("p1", ("callable",)),
@@ -590,10 +592,10 @@ def _exhaustive_unit(prog, q, depth, first=None):
 
 def _exhaustive_worker(job):
     """process-pool entry: the program is parsed again in the worker (the terms it returns are plain strings)"""
-    q, depth, first = job
+    q, depth, share = job
     from .source import Program
     try:
-        total, failures, visited = _exhaustive_unit(Program(), q, depth, first)
+        total, failures, visited = _exhaustive_unit(Program(), q, depth, share)
         return q, total, failures, sorted(visited), None
     except (AnalysisError, Unsupported) as ex:
         return q, 0, [], [], str(ex)
@@ -616,7 +618,7 @@ def exhaustive_histories_rule(ctx, run, rule, depth, jobs=1):
             run.functions |= visited
     else:
         import concurrent.futures as cf
-        units = [(D + c, depth, op) for c in CLASSES for op in ALPHABET]
+        units = [(D + c, depth, (k_, 2 * jobs)) for c in CLASSES for k_ in range(2 * jobs)]
         with cf.ProcessPoolExecutor(max_workers=jobs) as ex:
             for q, total, failures, visited, err in ex.map(_exhaustive_worker, units):
                 if err:
@@ -669,7 +671,45 @@ def hedger_histories_rule(ctx, run, rule):
     from . import world as W
     prog, interp = ctx.prog, ctx.interp
     L = "pfhedge.nn.modules.loss."
-    run.require(rule, 2 * len(HEDGER_METHODS) ** 2)
+    run.require(rule, 2 * len(HEDGER_METHODS) ** 2 + 2 * len(HEDGER_METHODS))
+    # two hedgers that share their input feature objects (a list of Feature instances handed to both constructors) and hedge the same derivative:
+    # what the second computes is a function of its own model and its own previous hedge
+    for m2, wrapped in [(m_, w_) for m_ in HEDGER_METHODS for w_ in (False, True)]:
+        src = f"def history(h1, h2, d):\n    a = h1.{m2}(d)\n    b = h2.{m2}(d)\n    return a, b\n"
+        fi = FuncInfo("synthetic.hedger_pair", "pfhedge.nn.modules.hedger", ast.parse(src).body[0])
+        shared = [W.feature("Moneyness", derivative=W.option("bound_before"), log=False), W.feature("PrevHedge", derivative=W.option("bound_before"))]
+        if wrapped:
+            # the same two features inside one ModuleOutput (which binds its inputs in place) shared by both hedgers
+            inner = Obj("pfhedge.features.container.FeatureList", "mo_inputs", {"features": shared})
+            shared = [Obj("pfhedge.features.container.ModuleOutput", "mo", {"inputs": inner, "module": Sym("feature_module", ("callable",))})]
+        hs = []
+        for k_ in (1, 2):
+            h_ = W.hedger(prog, shared, model=Sym(f"model{k_}", ("callable",)))
+            h_.name = f"h{k_}"
+            h_.attrs["criterion"] = Obj(L + "EntropicRiskMeasure", "criterion", dict(a=W.fl("a")))
+            hs.append(h_)
+        try:
+            allres = interp.explore(fi, [hs[0], hs[1], W.option("d")], {}, max_paths=200)
+        except Unsupported as ex:
+            raise AnalysisError(f"hedger pair history {m2}: {ex}")
+        res = [r for r in allres if not r["raises"]]
+        if not res:
+            raise AnalysisError(f"hedger pair history {m2}: no non-raising path")
+        bad = []
+        for r in res:
+            a, b = r["value"]
+            nb = {s_.name for s_ in walk(b) if isinstance(s_, Sym)}
+            leak = sorted(n_ for n_ in nb if n_ == "model1" or n_.startswith("h1.") or n_.startswith("h1#") or "@h1" in n_)
+            if leak:
+                bad.append(f"h2.{m2}(d) after h1.{m2}(d) with shared input features depends on the first hedger ({leak[0]})")
+            if "model2" not in nb:
+                bad.append(f"h2.{m2}(d) does not evaluate the second hedger's model")
+        bad = sorted(set(bad))
+        run.oblige(rule, f"two hedgers sharing their input features{' (inside a ModuleOutput)' if wrapped else ''}: h2.{m2}(d) is a function of h2 only", not bad, "; ".join(bad))
+        if bad:
+            fi2 = prog.lookup_method(W.HEDGER, m2)
+            run.fail(Finding(rule, fi2.qualname, f"h1.{m2}(d) ; h2.{m2}(d) with shared features: " + "; ".join(bad)[:260], "a feature bound by one hedger keeps reading that hedger's state when another hedger uses it",
+                             file=str(prog.modules[fi2.module].path), line=fi2.node.lineno, case=f"pair: {m2}"))
     for feats in (["Moneyness"], ["Moneyness", "PrevHedge"]):
         mode = "recurrent" if "PrevHedge" in feats else "vectorised"
         for m1 in HEDGER_METHODS:
@@ -705,3 +745,178 @@ def hedger_histories_rule(ctx, run, rule):
                     fi2 = prog.lookup_method(W.HEDGER, m2)
                     run.fail(Finding(rule, fi2.qualname, f"[{mode}] {m1}(d1) ; {m2}(d2): " + "; ".join(bad)[:260], "the result of hedging a derivative depends on what the hedger was used with before",
                                      file=str(prog.modules[fi2.module].path), line=fi2.node.lineno, case=f"{mode}: {m1} ; {m2}"))
+
+
+# ---------------------------------------------------------------------------------------------------------------- cast / simulate sequences
+CAST_ALPHABET = {
+    "to(dtype=D1)": "s.to(dtype=D1)",
+    "to(D2)": "s.to(D2)",
+    "to(device=V1)": "s.to(device=V1)",
+    "to(other)": "s.to(other)",
+    "double()": "s.double()",
+    "float()": "s.float()",
+    "half()": "s.half()",
+    "simulate(N)": "s.simulate(n_paths=N)",
+    "register(aux)": 's.register_buffer("aux", v)',
+}
+ALIAS_DTYPE = {"double()": "torch.float64", "float()": "torch.float32", "half()": "torch.float16"}
+
+
+def _cast_model(seq, sim_names, simulated=False):
+    """declared (dtype, device) and buffer names after the sequence; dtype / device are tags compared with the interpreted values"""
+    dtype, device, names = None, None, (list(sim_names) if simulated else [])
+    for op in seq:
+        if op == "to(dtype=D1)":
+            dtype = "D1"
+        elif op == "to(D2)":
+            dtype = "D2"
+        elif op == "to(device=V1)":
+            device = "V1"
+        elif op == "to(other)":
+            dtype, device = "D3", "V3"
+        elif op in ALIAS_DTYPE:
+            dtype = ALIAS_DTYPE[op]
+        elif op == "simulate(N)":
+            names = names + [n for n in sim_names if n not in names]  # a dict keeps the position of a name that is registered again
+        elif op == "register(aux)":
+            if "aux" not in names:
+                names.append("aux")
+    return dtype, device, names
+
+
+def _tag(v):
+    from .interp import ExtRef
+    if isinstance(v, Sym):
+        return v.name
+    if isinstance(v, ExtRef):
+        return v.name
+    return v
+
+
+def _effective(t):
+    """(device, dtype) a buffer term ends up in: the outermost cast that names one, going inwards through nested .to(device, dtype)"""
+    dev = dt = None
+    while isinstance(t, Op) and t.op == "to":
+        kw = t.kwd()
+        pos = list(t.args[1:])
+        d_, t_ = kw.get("device", pos[0] if pos else None), kw.get("dtype", pos[1] if len(pos) > 1 else None)
+        if dev is None and d_ is not None:
+            dev = d_
+        if dt is None and t_ is not None:
+            dt = t_
+        t = t.args[0]
+    return dev, dt
+
+
+def _cast_unit(prog, q, depth, only=None):
+    import itertools
+    interp = Interp(prog, max_depth=20)
+    for k in list(interp.intrinsics):
+        if ".BaseDerivative." in k or ".BasePrimary." in k:
+            interp.intrinsics.pop(k)
+    interp.faithful_registry = True
+    short = q.rsplit(".", 1)[-1]
+    init = prog.lookup_method(q, "__init__")
+    required = [a.arg for a in init.node.args.args[1:len(init.node.args.args) - len(init.node.args.defaults)]] if init else []
+    extra = tuple(Sym(n, ("callable",)) if n.endswith("_fn") else Sym(n, ("float",)) for n in required)
+    has_dt = init is not None and any(a.arg == "dt" for a in init.node.args.args)
+    args = dict(extra=extra, D1=Sym("D1", ("dtype",)), D2=Sym("D2", ("dtype",)), D3=Sym("D3", ("dtype",)), V1=Sym("V1", ("device",)), V3=Sym("V3", ("device",)),
+                v=Sym("v", ("tensor",)), N=Sym("N", ("int",)), dt0=Sym("dt0", ("float",)))
+    mk = "cls(*extra, dt=dt0)" if has_dt else "cls(*extra)"
+    head = (f"def history(cls, extra, D1, D2, D3, V1, V3, v, N, dt0):\n    s = {mk}\n    other = {mk}\n    other.to(dtype=D3, device=V3)\n")
+    # buffer names of a simulation of this class
+    fi0 = FuncInfo("synthetic.sim_names", "pfhedge.instruments.primary.base", ast.parse(head + "    s.simulate(n_paths=N)\n    return [n for n, _ in s.named_buffers()]\n").body[0])
+    r0 = [r for r in interp.explore(fi0, [ClassRef(q)], dict(args), max_paths=60) if not r["raises"]]
+    if not r0:
+        raise AnalysisError(f"{short}: simulate() of a new instrument has no non-raising path")
+    sim_names = list(r0[0]["value"])
+    seqs = [s_ for n in range(1, depth + 1) for s_ in itertools.product(CAST_ALPHABET, repeat=n)]
+    work = [(st_, s_) for st_ in (False, True) for s_ in seqs]
+    if only is not None:
+        work = work[only[0]::only[1]]  # every only[1]-th history starting at only[0]: an even share of cheap and expensive ones
+    failures, total = [], 0
+    for simulated, seq0 in work:
+        seq = (("<simulated>",) if simulated else ()) + seq0
+        body = ("    s.simulate(n_paths=N)\n" if simulated else "") + "".join(f"    {CAST_ALPHABET[op]}\n" for op in seq0)
+        fi = FuncInfo("synthetic.cast_history", "pfhedge.instruments.primary.base", ast.parse(head + body + "    return s.dtype, s.device, list(s.named_buffers())\n").body[0])
+        try:
+            allres = interp.explore(fi, [ClassRef(q)], dict(args), max_paths=400)
+        except Unsupported as ex:
+            raise AnalysisError(f"cast history {' ; '.join(seq)} on {short}: {ex}")
+        total += 1
+        res = [r for r in allres if not r["raises"]]
+        dtype, device, names = _cast_model(seq0, sim_names, simulated)
+        bad = []
+        if not res:
+            bad.append("ends in an exception on every path: " + "; ".join(sorted({str(getattr(r["raises"], "exc", r["raises"]))[:60] for r in allres}))[:120])
+        for r in res:
+            dt, dev, bufs = r["value"]
+            if _tag(dt) != dtype:
+                bad.append(f"declared dtype is {_tag(dt)}, expected {dtype}")
+            if _tag(dev) != device:
+                bad.append(f"declared device is {_tag(dev)}, expected {device}")
+            if [n for n, _ in bufs] != names:
+                bad.append(f"buffers {[n for n, _ in bufs]}, expected {names}")
+            for n, b in bufs:
+                e_dev, e_dt = _effective(b)
+                if dtype is not None and _tag(e_dt) != dtype:
+                    bad.append(f"buffer '{n}' ends up in dtype {_tag(e_dt)} while the instrument declares {dtype}")
+                if device is not None and _tag(e_dev) != device:
+                    bad.append(f"buffer '{n}' ends up on device {_tag(e_dev)} while the instrument declares {device}")
+        if bad:
+            failures.append((seq, sorted(set(bad))))
+    return total, failures, {f for f in interp.visited if f in prog.functions}
+
+
+def _cast_worker(job):
+    q, depth, share = job
+    from .source import Program
+    try:
+        total, failures, visited = _cast_unit(Program(), q, depth, share)
+        return q, total, failures, sorted(visited), None
+    except (AnalysisError, Unsupported) as ex:
+        return q, 0, [], [], str(ex)
+
+
+def cast_histories_rule(ctx, run, rule, depth, classes=None, jobs=1):
+    """C17 taken literally: every sequence of at most `depth` calls from CAST_ALPHABET (to with a dtype / device / instrument, the aliases,
+    simulate, register_buffer) on a new instrument; afterwards the declared dtype and device are those of the last call that named one, the
+    buffers are the registered ones, and every buffer's outermost effective cast is the declared dtype / device"""
+    from .primaries import primary_classes
+    prog = ctx.prog
+    classes = classes or primary_classes(prog)
+    run.require(rule, len(classes))
+    per = {q: [0, []] for q in classes}
+    if jobs <= 1:
+        for q in classes:
+            total, failures, visited = _cast_unit(prog, q, depth)
+            per[q] = [total, failures]
+            run.functions |= visited
+    else:
+        import concurrent.futures as cf
+        units = [(q, depth, (k_, 2 * jobs)) for q in classes for k_ in range(2 * jobs)]
+        with cf.ProcessPoolExecutor(max_workers=jobs) as ex:
+            for q, total, failures, visited, err in ex.map(_cast_worker, units):
+                if err:
+                    raise AnalysisError(err)
+                per[q][0] += total
+                per[q][1] += failures
+                run.functions |= set(visited)
+    grand = 0
+    for q in classes:
+        short = q.rsplit(".", 1)[-1]
+        total, failures = per[q]
+        grand += total
+        failures.sort(key=lambda f: (len(f[0]), f[0]))
+        minimal = []
+        for seq, bad in failures:
+            if not any(_subseq(m_, seq) for m_, _ in minimal):
+                minimal.append((seq, bad))
+        run.oblige(rule, f"{short}: all {total} sequences of at most {depth} cast / simulate / register calls keep the dtype-device contract", not failures,
+                   "; ".join(" -> ".join(s_) + ": " + b_[0] for s_, b_ in minimal[:3]))
+        for seq, bad in minimal[:4]:
+            where = prog.lookup_method(q, "to")
+            run.fail(Finding(rule, where.qualname if where else q, f"{short} after [{' ; '.join(seq)}]: " + "; ".join(bad)[:260],
+                             "after this sequence of calls a buffer is not in the dtype / on the device the instrument declares",
+                             file=str(prog.modules[(where or prog.classes[q]).module].path), line=(where.node if where else prog.classes[q].node).lineno, case=" ; ".join(seq)))
+    run.notes.append(f"{rule}: {grand} cast / simulate sequences interpreted (alphabet of {len(CAST_ALPHABET)}, depth {depth}, {len(classes)} classes)")
